@@ -423,11 +423,12 @@ func init() {
 		w.finish("S", b, oFailBlock)
 		w.finish("S", a, oFail)
 	}, t1: []int{oFailSync, oDone}, t2: []int{oDoneCU, oFail}})
-	// H6: pairing update to the next epoch while two relays are in flight.
-	reg(spec{name: "H6-epoch-update", nProv: 2, t1: []int{oDone, oFailBlock}, t2: []int{oFailSync}, update: true})
-	// H7: everything blocked in the prefix (redemption path) + second-chance timers allowed to expire.
-	reg(spec{name: "H7-redemption", nProv: 2, timers: true, setup: func(w *world) {
+	// H6: everything blocked in the prefix (redemption path) + second-chance timers allowed to expire.
+	reg(spec{name: "H6-redemption", nProv: 2, timers: true, setup: func(w *world) {
 		w.relays("S", []int{oFailBlock})
 		w.relays("S", []int{oFailSync})
 	}, t1: []int{oDone, oFail}, t2: []int{oFailSync, oDone}})
+	// H7/H8: pairing update to the next epoch (fresh provider objects, probes, re-blocking) while relays are in flight.
+	reg(spec{name: "H7-epoch-update-1", nProv: 2, t1: []int{oDone, oFailBlock}, update: true})
+	reg(spec{name: "H8-epoch-update-2", nProv: 2, t1: []int{oFailSync}, t2: []int{oDone}, update: true})
 }
